@@ -18,8 +18,8 @@ The expiry path (`InFlightRequests::poll_expired`) never aborts a handler before
 is armed for `max (ceil_ms (now + clampTimeout (deadline - now))) wheel.elapsed`, the part of the time
 until the deadline that the clamp (`MAX_DEADLINE_TIMEOUT`) cut off is kept in the entry
 (`deadline_remainder`), so that `tick + remainder ≥ deadline` throughout (`TInv.dl`); a timer that fires
-while some of the remainder is still left after taking off how late the poll is (`late = now − tick`,
-`rest = remainder − late`) is re-armed with (the next clamped part of) the rest (`TInv.rearm`); only a timer
+while some of the remainder is still left after taking off how late the poll is (`late = now − dueAt`,
+measured from the exact due time the entry records, `rest = remainder − late`) is re-armed with (the next clamped part of) the rest (`TInv.rearm`); only a timer
 that fires with nothing left (`rest = 0`, hence `deadline ≤ tick + remainder ≤ now`) expires the request,
 and the timer wheel never yields an entry before its tick (`DelayQ.pollExpired_not_early`). -/
 theorem C06_never_early (limit : Option Nat) (respCap tcap : Nat) (coupled : Bool) (ops : List SOp)
@@ -66,7 +66,27 @@ theorem C06_timer_reaches_deadline (limit : Option Nat) (respCap tcap : Nat) (co
       ex.deadline ≤ k.2.2 * nsPerMs + en.remainder := by
   subst hc
   intro en hen k hk hkey ex hex hr
-  exact ((sinv_reach true limit respCap tcap coupled ops).t.dl en hen k hk hkey ex hex hr).1
+  exact ((sinv_reach true limit respCap tcap coupled ops).t.dl en hen k hk hkey ex hex hr).reach
+
+/-- **The deadline invariant, exact form.**  In every reachable state, for every tracked request `en`, its
+armed timer (tick `k.2.2`, ms) and the execution `ex` it guards:
+* the timer is due at exactly `en.dueAt` (`timer_due`), which the queue rounds up to the millisecond:
+  `en.dueAt ≤ tick < en.dueAt + 1 ms`;
+* `deadline ≤ en.dueAt + en.remainder` — never early;
+* `en.dueAt + en.remainder ≤ max deadline now` — not late: while the deadline lies ahead,
+  `dueAt + remainder = deadline` exactly (re-arming does not drift: the lateness of a poll is measured from
+  `dueAt`, not from the rounded tick); for a request read after its deadline the timer is due at once.
+Hence the request expires at the first poll of the channel (not stalled by the limiter) at or after
+`ceilMs deadline`, whatever its deadline and however many times its timer was re-armed. -/
+theorem C06_timer_exact (limit : Option Nat) (respCap tcap : Nat) (coupled : Bool) (ops : List SOp)
+    (c : Sys) (hc : c = ops.foldl applyOp (initSys limit respCap tcap coupled)) :
+    ∀ en ∈ c.s.inflight, ∀ k ∈ c.s.timers.cores, k.1 = en.timerKey → ∀ ex ∈ c.s.execs, ex.rid = en.rid →
+      k.2.2 = ceilMs en.dueAt ∧ (en.dueAt ≤ k.2.2 * nsPerMs ∧ k.2.2 * nsPerMs < en.dueAt + nsPerMs) ∧
+      ex.deadline ≤ en.dueAt + en.remainder ∧ en.dueAt + en.remainder ≤ max ex.deadline c.now := by
+  subst hc
+  intro en hen k hk hkey ex hex hr
+  have h := (sinv_reach true limit respCap tcap coupled ops).t.dl en hen k hk hkey ex hex hr
+  exact ⟨h.tick, h.tick_lt, h.lo, h.hi⟩
 
 /-- **C06 (b): an expiry touches nothing else.**  In any state, `poll_expired` either leaves the tracked
 requests (the `(id, rid)` pairs of the in-flight table, in order — a re-arm changes an entry's timer key and
@@ -146,7 +166,7 @@ theorem C06_limiter_stall_witness :
     let c := [SOp.injectReq 1 1000000 ⟨0, .given 0, false⟩ 0, .pollServer, .pollExec 0, .setReady false,
       .advance 5000000, .pollServer].foldl applyOp (initSys (some 1) 1 1 false)
     c.now = 5000000 ∧ c.s.execs.map (fun e => (e.deadline, e.aborted)) = [(1000000, false)] ∧
-    c.s.inflight = [{ id := 1, timerKey := 0, rid := 0 }] ∧ c.s.done = none ∧ c.s.poisoned = false := by
+    c.s.inflight = [{ id := 1, timerKey := 0, rid := 0, dueAt := 1000000 }] ∧ c.s.done = none ∧ c.s.poisoned = false := by
   decide
 
 /-- The stall in general form: whenever the limiter is at its limit and the sink answers
@@ -192,7 +212,7 @@ theorem C06_far_deadline_witness :
     let c2 := [SOp.advance (Gen.serverTimerClampSecs * 1000000000 - 1), .pollServer, .pollExec 0].foldl applyOp c1
     let c3 := [SOp.advance 1, .pollServer, .pollExec 0].foldl applyOp c2
     (c1.s.execs.map (fun e => (e.deadline, e.aborted, e.phase)) = [(D, false, .running)] ∧
-      c1.s.inflight = [{ id := 1, timerKey := 1, rid := 0, remainder := 0 }]) ∧
+      c1.s.inflight = [{ id := 1, timerKey := 1, rid := 0, remainder := 0, dueAt := D }]) ∧
     (c2.now = D - 1 ∧ c2.s.execs.map (fun e => (e.deadline, e.aborted, e.phase)) = [(D, false, .running)] ∧
       c2.s.inflight.length = 1) ∧
     (c3.now = D ∧ c3.s.execs.map (fun e => (e.deadline, e.aborted, e.phase)) = [(D, true, .done)] ∧
@@ -213,9 +233,30 @@ theorem C06_late_poll_witness :
     let c1 := [SOp.injectReq 1 (3 * C) ⟨0, .given 0, false⟩ 0, .pollServer, .pollExec 0].foldl applyOp
       (initSys none 1 1 true)
     let c2 := [SOp.advance (3 * C), .pollServer, .pollExec 0].foldl applyOp c1
-    c1.s.inflight = [{ id := 1, timerKey := 0, rid := 0, remainder := 2 * C }] ∧
+    c1.s.inflight = [{ id := 1, timerKey := 0, rid := 0, remainder := 2 * C, dueAt := C }] ∧
     c2.now = 3 * C ∧ c2.s.execs.map (fun e => (e.deadline, e.aborted, e.phase)) = [(3 * C, true, .done)] ∧
     c2.s.inflight = [] ∧ c2.s.timers.len = 0 ∧ c2.s.dropped = false ∧ c2.s.poisoned = false := by
+  decide
+
+/-- **Re-arming does not drift (model-level witness).**  A request read at clock 1 ns with a deadline of
+one clamp + 10 ms: its timer is due at `1 ns + clamp` (tick: 1 ms later, rounded up), `remainder` is
+10 ms − 1 ns.  The poll 1 ns before the deadline finds the first timer fired and re-arms it with the 1 ns that
+is left (lateness measured from `dueAt`, not from the rounded tick), due exactly at the deadline; the poll at
+the deadline, `clamp + 10 ms`, aborts the handler.  Measuring from the tick — as the code did before — leaves
+1 ms − 1 ns unaccounted for and expires the request 1 ms late.  The same script replays on the real code with
+the same outcome. -/
+theorem C06_no_drift_witness :
+    let C := Gen.serverTimerClampSecs * 1000000000
+    let D := C + 10000000
+    let c1 := [SOp.advance 1, .injectReq 1 D ⟨0, .given 0, false⟩ 0, .pollServer, .pollExec 0].foldl applyOp
+      (initSys none 1 1 true)
+    let c2 := [SOp.advance (D - 2), .pollServer, .pollExec 0].foldl applyOp c1
+    let c3 := [SOp.advance 1, .pollServer, .pollExec 0].foldl applyOp c2
+    c1.s.inflight = [{ id := 1, timerKey := 0, rid := 0, remainder := 9999999, dueAt := C + 1 }] ∧
+    (c2.now = D - 1 ∧ c2.s.execs.map (fun e => (e.deadline, e.aborted, e.phase)) = [(D, false, .running)] ∧
+      c2.s.inflight = [{ id := 1, timerKey := 1, rid := 0, remainder := 0, dueAt := D }]) ∧
+    (c3.now = D ∧ c3.s.execs.map (fun e => (e.deadline, e.aborted, e.phase)) = [(D, true, .done)] ∧
+      c3.s.inflight = [] ∧ c3.s.timers.len = 0 ∧ c3.s.dropped = false ∧ c3.s.poisoned = false) := by
   decide
 
 end TarpcModel.Server
